@@ -4,9 +4,9 @@
 
    MODEL  = Model.v  (run = yash_arith::eval; tokens_of, parse, eval, ...)
    SPEC   = Spec.v   (spec_run = spec_lex ; spec_parse ; spec_eval, oracle) *)
-From Yv Require Import Common.Base C03.Defs C03.Model C03.Spec.
+From Yv Require Import Common.Base C03.Defs C03.Model C03.Spec C03.ModelShell C03.SpecShell.
 From Yv Require Import C03.ProofsArith C03.ProofsNum C03.ProofsLex C03.ProofsEval
-  C03.ProofsParse C03.ProofsParse2 C03.Proofs C03.ProofsVar C03.ProofsGen C03.ProofsSeq.
+  C03.ProofsParse C03.ProofsParse2 C03.Proofs C03.ProofsVar C03.ProofsGen C03.ProofsSeq C03.ProofsPort C03.ProofsShell.
 From Yv Require Import Gen.Gen_Arith.
 Import GenNames.
 (* non-vacuity examples for the implication-shaped theorems: Examples.v,
@@ -105,6 +105,64 @@ Proof. exact parse_equiv_lemma. Qed.
 Theorem parse_wf :
   forall st ns st', fin_ok st -> parse st = POk ns st' -> exists e, Repr e ns.
 Proof. exact parse_wf_lemma. Qed.
+
+(* ---- the shell side (yash-semantics expansion/initial/arith.rs) ------------------------- *)
+
+(* yash_arith::eval over the shell's environment (VarEnv): with the nounset option an
+   unset variable that is read is an error instead of 0; assigning a read-only
+   variable is an error and leaves it unchanged.  The value and the variables are
+   exactly the specified ones; an error is reported exactly when the specification
+   fails, and then the variables are exactly those the specification has at the point
+   of failure: the assignments of the operands evaluated before the error (left to
+   right; never those of unevaluated operands of && || ?:), and none by the failing
+   operator itself. *)
+Theorem env_arith_exact_or_error :
+  forall m cls s env,
+    match run_mode m cls s env with
+    | RVal z env' => spec_run_mode m cls s env = MVal z env'
+    | RErr _ _ env' => spec_run_mode m cls s env = MErr env'
+    | RPanic | RFuel => False
+    end.
+Proof. exact run_mode_correct. Qed.
+
+(* `$(( text ))` in the shell: the text is expanded first (`$name` / `${name}` by the
+   value, nothing if unset, an error with nounset; a nested `$(( ))` by the decimal
+   representation of its value, its assignments staying in effect), then evaluated;
+   the expansion is the decimal representation of the specified value, and errors and
+   variables are as in env_arith_exact_or_error *)
+Theorem shell_arith_exact_or_error :
+  forall m cls us e,
+    match shell_arith m cls us e with
+    | XOk s e' => spec_shell_arith m cls us e = YOk s e'
+    | XErr e' => spec_shell_arith m cls us e = YErr e'
+    | XPanic => False
+    end.
+Proof. exact shell_arith_correct. Qed.
+
+(* ---- portable mode (Config { portable: true }, ast/portability.rs) ---------------------- *)
+
+(* portability::check on what ast::parse returned reports a `++` / `--` token of the
+   text with the least start offset (the first in source order) - whether or not its
+   operand would be evaluated - and succeeds iff the text contains no such token *)
+Theorem portability_check_spec :
+  forall st ns st', parse st = POk ns st' ->
+    match portability_check ns with
+    | None => tlocs (fst st) = []
+    | Some loc => In loc (tlocs (fst st)) /\
+                  forall l, In l (tlocs (fst st)) -> (fst loc <= fst l)%N
+    end.
+Proof. exact portability_check_lemma. Qed.
+
+(* eval_with_config in portable mode: an expression without `++` / `--` has exactly
+   its value and assignments; every other text is an error; no panic *)
+Theorem portable_exact_or_error :
+  forall cls s env,
+    match run_portable cls s env with
+    | RVal z env' => spec_run_portable cls s env = SVal z env'
+    | RErr _ _ _ => spec_run_portable cls s env = SErr
+    | RPanic | RFuel => False
+    end.
+Proof. exact run_portable_correct. Qed.
 
 (* ---- evaluator ------------------------------------------------------------------------ *)
 
@@ -229,6 +287,10 @@ Print Assumptions lex_equiv.
 Print Assumptions precedence_is_C.
 Print Assumptions parse_equiv.
 Print Assumptions parse_wf.
+Print Assumptions env_arith_exact_or_error.
+Print Assumptions shell_arith_exact_or_error.
+Print Assumptions portability_check_spec.
+Print Assumptions portable_exact_or_error.
 Print Assumptions shl_filter_exact.
 Print Assumptions binary_result_exact_or_error.
 Print Assumptions arith_in_range.
